@@ -259,6 +259,8 @@ pub fn analyse(rep: &RunReport) -> Verdict {
                     let dropped = ra.handle.and_then(|h| world.hrec[h].dropped_at);
                     if dropped.map_or(false, |d| a.1.map_or(true, |f| f > d)) {
                         v(&mut out, "C08", "cancelled_future_outlived_its_slot", &[a.2, b.2], b.0, format!("future_sync {} was dropped mid-operation, but operation {} started on object {} before its future had been destroyed", a.2, b.2, o));
+                        // ... and that future holds the `&mut T` it was created with: two live mutable borrows of the value
+                        v(&mut out, "C14", "cancelled_future_still_borrowed_the_value", &[a.2, b.2], b.0, format!("the future of future_sync {} (which borrows the value of object {} mutably) was still alive when operation {} was given the value", a.2, o, b.2));
                     }
                 }
             }
